@@ -33,13 +33,31 @@ CFGS = {"quick": [("CondIncl_quick", None), ("CondIncl_deep", None), ("CondIncl_
 BATCH = 2500
 
 
+# layouts of a directive line: all denote the same directive to a conforming preprocessor
+HASH = ["#", "# ", "#\t", "  #", "#/**/", "# /* c */ "]
+TRAIL = ["", "", " // trailing", " /* trailing */", "   "]
+
+
+def directive(rnd, name, arg=""):
+    h = rnd.choice(HASH)
+    if arg:
+        # the controlling expression may be continued on the next line
+        if " " in arg and rnd.random() < 0.15:
+            i = arg.index(" ")
+            arg = arg[:i] + " \\\n" + arg[i:]
+        return "%s%s %s%s" % (h, name, arg, rnd.choice(TRAIL[:4]))
+    return "%s%s%s" % (h, name, rnd.choice(TRAIL))
+
+
 def render_line(code, cid, n, rnd):
     if ":" in code:
         k, c = code.split(":")
-        return "#%s %s" % (k, rnd.choice(SPELL[c]))
-    return {"ifdef": "#ifdef M", "ifndef": "#ifndef M", "elifdef": "#elifdef M",
-            "elifndef": "#elifndef M", "else": "#else", "endif": "#endif",
-            "text": "int T%d;" % n, "def0": "#define M 0", "def1": "#define M 1",
+        return directive(rnd, k, rnd.choice(SPELL[c]))
+    if code in ("ifdef", "ifndef", "elifdef", "elifndef"):
+        return directive(rnd, code, "M")
+    if code in ("else", "endif"):
+        return directive(rnd, code)
+    return {"text": "int T%d;" % n, "def0": "#define M 0", "def1": "#define M 1",
             "undef": "#undef M", "warn": "#warning W_%d_%d" % (cid, n),
             "err": "#error E_%d_%d" % (cid, n),
             "inc": '#include "vinc.h"', "inc2": '#include "vonce_%d.h"' % cid,
